@@ -37,6 +37,9 @@ pub fn guarded<R>(f: impl FnOnce() -> R) -> Result<R, String> {
 
 /// Silence the default panic hook (we catch and classify panics ourselves).
 pub fn quiet_panics() {
+	if std::env::var("VERIF_LOUD").is_ok() {
+		return;
+	}
 	std::panic::set_hook(Box::new(|_| {}));
 }
 
@@ -90,6 +93,8 @@ pub fn err_class(e: &libwallet::Error) -> u64 {
 		InvalidKeychainMask => 11,
 		KeychainDoesntExist => 12,
 		PaymentProof(_) | PaymentProofParsing(_) | PaymentProofRetrieval(_) => 16,
+		Secp(_) | Keychain(_) | LibTX(_) | Transaction(_) | Signature(_) | Committed(_) => 17,
+		ClientCallback(_) | Node => 19,
 		_ => 21,
 	}
 }
